@@ -27,7 +27,7 @@ ITEM('trait MethodExt')
 IMPL('impl MethodExt for Method')
 FN('is_http10', props=['C17'], ret='r', ensures=[('aux.is_http10', 'r == method_is_http10(*self)')])
 FN('is_http11', props=['C17'], ret='r', ensures=[('aux.is_http11', 'r == method_is_http11(*self)')])
-FN('need_request_body', props=['C17', 'C09', 'C15'], ret='r', ensures=[('C17.need_request_body', 'r == method_needs_body(*self)')])
+FN('need_request_body', props=['C17', 'C09', 'C15'], ret='r', ensures=[('C09/C15/C17.need_request_body', 'r == method_needs_body(*self)')])
 FN('verify_version', props=['C17'], ret='r', ensures=[('C17.version_and_method', 'res_agree(r, spec_verify_version(*self, v))')])
 END()
 ITEM('trait StatusExt')
